@@ -859,7 +859,7 @@ PROVIDES = {'_k_fit_gain': ('fitGain_',), '_k_fit_gain_offset': ('fitGainOffset_
 SERVES = {
     'C01': ('fitGain', 'r2_', 'blk_', 'blockNorm_'), 'C02': ('fitGain', 'r2_', 'blk_', 'blockNorm_', 'applyParams', 'resamplingIsDown'),
     'C07': ('fitGain', 'r2_', 'blk_', 'blockNorm_', 'applyParams'), 'C14': ('applyParams', 'paramIndex'),
-    'C04': ('prog', 'fanOut'), 'C09': ('prog', 'outFilesEvents', 'fanOut'), 'C10': ('outFilesEvents',), 'C11': ('cmp_', 'cmpPx_'), 'C12': ('stats_',), 'C17': ('cover_',), 'C20': ('bounded_',), 'C05': ('overlapForKernel', 'blocks_', 'resamplingIsDown'),
+    'C04': ('prog', 'fanOut'), 'C09': ('prog', 'outFilesEvents', 'fanOut'), 'C10': ('outFilesEvents',), 'C11': ('cmp_', 'cmpPx_', 'resamplingIsDown'), 'C12': ('stats_',), 'C17': ('cover_',), 'C20': ('bounded_',), 'C05': ('overlapForKernel', 'blocks_', 'resamplingIsDown'),
     'C06': ('blocks_', 'expandWindow_', 'roundBounds_', 'autoBlock_'), 'C16': ('covers_axis',), 'C18': ('resolveAutoIsRef',), 'C19': ('cli_',),
 }
 # theorems outside Props/Cxx.lean audited with a property's proof leg: (module, theorem name prefix) - the source-text tie
@@ -871,7 +871,7 @@ TIE = {
     'C03': [('E2E', 'block_transparent'), ('E2EMask', 'whole_image_'), ('E2EMask', 'block_mask_eq_whole')],
     'C15': [('BandInfo', 'bandInfo_')],
     'C07': [('SrcTieKernel', 'src_C01_'), ('E2ELine', 'whole_image_scale')], 'C14': [('SrcTieKernel', 'src_C14_'), ('SrcTieGeom', 'src_C14_')],
-    'C11': [('SrcTieStats', 'src_C11_'), ('E2ECompare', 'compare_')], 'C12': [('SrcTieStats', 'src_C12_')], 'C05': [('SrcTieGeom', 'src_C05_'), ('SrcTieGeom', 'src_C06_block'), ('E2E', 'block_transparent'), ('E2E', 'partitions_agree'),
+    'C11': [('SrcTieStats', 'src_C11_'), ('E2ECompare', 'compare_'), ('SrcTieKernel', 'src_C02_resampling')], 'C12': [('SrcTieStats', 'src_C12_')], 'C05': [('SrcTieGeom', 'src_C05_'), ('SrcTieGeom', 'src_C06_block'), ('E2E', 'block_transparent'), ('E2E', 'partitions_agree'),
             ('E2ESrc', 'block_transparent_src_grid'), ('E2ESrc', 'partitions_agree_src_grid'), ('E2ESrc', 'correctedSrcGrid_eq_on')],
     'C06': [('SrcTieGeom', 'src_C06_')], 'C16': [('SrcTieGeom', 'src_C16_')], 'C18': [('SrcTieGeom', 'src_C18_')],
     'C17': [('SrcTieGeom', 'src_C17_'), ('E2EPartial', 'partial_mask_'), ('E2EPartialDef', 'partial_valid_'),
